@@ -289,6 +289,17 @@ def check_convolve(prog, rep):
     entry = 'convolution_2d'
     data, kernel = f.params[:2]
     k = interpret(prog, f)
+    # which parameter is the raster and which the kernel, by use: the per-cell loops are bounded by the raster's own extent
+    # (the kernel's extent only enters halved, as the margin)
+    ext = set()
+    for lp in k.loops:
+        if isinstance(lp.hi, Rat):
+            for a in lp.hi.atoms():
+                if isinstance(a, App) and a.name == 'shape' and a.args[0] in f.params:
+                    ext.add(a.args[0])
+    if len(ext) == 1 and len(f.params) == 2:
+        data = next(iter(ext))
+        kernel = [p_ for p_ in f.params if p_ != data][0]
     rets = returned_arrays(k)
     out = rets[0] if rets else None
     rep.add('F3', f, entry, 'output initialised %r' % getattr(out, 'init', None), f.node.lineno,
